@@ -222,6 +222,7 @@ def run(res: Results, idx: Index, tier: str) -> None:
     rule_c(res, idx)
 
     rule_e(res, idx)
+    rule_f(res, idx)
     from .c03 import inherited_settings
     res.rule("R-C09d", "nested Loop / If / function scopes inherit enable_double_precision from an attribute that exists", floor=1)
     for site, key, status, detail, func, setting in inherited_settings(idx):
@@ -426,3 +427,43 @@ def rule_e(res: Results, idx: Index) -> None:
                 else:
                     res.violation("R-C09e", site, key, f"jnp.{stem}: `{src(c, 50)}` follows NumPy's lattice (int32 with float32 -> float64, JAX: float32) and nothing clamps it: with enable_double_precision=False the export contains DOUBLE casts / tensors for an int array combined with a float32 array", fi.qualname)
     res.analysed["numpy_promotion_sites"] = n
+
+
+# ---------------------------------------------------------------------------------------------- R-C09f
+def rule_f(res: Results, idx: Index) -> None:
+    """Sibling agreement of the precision policies.  The type policy (numpy_dtype_to_ir_with_float_policy) widens float32
+    only: float16 values keep their element type in a double-precision export.  Every function that widens constant
+    ARRAYS to float64 under the precision flag therefore has to restrict itself to float32 as well; a guard of the form
+    `issubdtype(dtype, floating) and dtype != float64` also widens float16 constants, which then meet float16 operands
+    (Mul(float16, double): the model does not type-check)."""
+    res.rule("R-C09f", "constant arrays are widened to float64 for float32 only, like the type policy", floor=3)
+    n = 0
+    for m in idx.product_modules():
+        if not (m.rel.startswith("jax2onnx/converter/") or m.rel == "jax2onnx/ir_utils.py"):
+            continue
+        for fi in m.funcs.values():
+            for c in walk_no_nested(fi.node):
+                if not (isinstance(c, ast.Call) and isinstance(c.func, ast.Attribute) and c.func.attr == "astype" and c.args and "float64" in src(c.args[0], 40)):
+                    continue
+                n += 1
+                key = f"{m.rel}::{fi.qualname}::widen::{src(c.func.value, 30)}"
+                site = f"{m.rel}:{c.lineno}"
+                from ..guards import path_conditions
+                conds = path_conditions(c)
+                only_f32 = False
+                broad = False
+                for e, want in conds:
+                    for cmp in [x for x in ast.walk(e) if isinstance(x, ast.Compare) and len(x.ops) == 1]:
+                        t = src(cmp, 120)
+                        if "float32" in t and ((isinstance(cmp.ops[0], ast.Eq) and want) or (isinstance(cmp.ops[0], ast.NotEq) and not want)):
+                            only_f32 = True
+                    for call in [x for x in ast.walk(e) if isinstance(x, ast.Call)]:
+                        if (call_name(call) or "").endswith("issubdtype") and "floating" in src(call, 80) and want:
+                            broad = True
+                if only_f32:
+                    res.ok("R-C09f", site, key, "widens float32 arrays only", fi.qualname)
+                elif broad:
+                    res.violation("R-C09f", site, key, f"`{src(c, 50)}` widens every floating array that is not float64 - including float16 constants, whose operands keep the FLOAT16 element type under the type policy: float16 * <python scalar> with enable_double_precision=True exports Mul(float16, double)", fi.qualname)
+                else:
+                    res.unresolved("R-C09f", site, key, "guard of the widening not recognised", fi.qualname)
+    res.analysed["float64_widening_sites"] = n
